@@ -458,6 +458,13 @@ func (self *Analyzer) importItem(node pAst.ImportStatement) ast.AnalyzedImport {
 					continue
 				}
 
+				// A module cannot declare templates itself: this one was merely imported by the module.
+				self.error(
+					fmt.Sprintf("Cannot import template '%s' from module '%s': imports are not re-exported", item.Ident, node.FromModule),
+					nil,
+					item.Span,
+				)
+
 				if _, prevFound := self.currentModule.addTemplate(item.Ident, templ); prevFound {
 					self.error(fmt.Sprintf("Template '%s' already exists in current scope", item.Ident), nil, item.Span)
 				}
@@ -479,6 +486,13 @@ func (self *Analyzer) importItem(node pAst.ImportStatement) ast.AnalyzedImport {
 					}
 					continue
 				}
+
+				// A module cannot declare triggers itself: this one was merely imported by the module.
+				self.error(
+					fmt.Sprintf("Cannot import trigger '%s' from module '%s': imports are not re-exported", item.Ident, node.FromModule),
+					nil,
+					item.Span,
+				)
 
 				if _, prevFound := self.currentModule.addTrigger(item.Ident, trigg); prevFound {
 					self.error(fmt.Sprintf("Trigger '%s' already exists in current scope", item.Ident), nil, item.Span)
